@@ -33,7 +33,7 @@ def gates(tier):
     return {'identity_law_calls': 3000, 'numbered_only_cases': 300, 'constant_shadowing_cases': 300, 'dependent_chain_cases': 100, 'grader_calls': 5000, 'expected_correct': 1200, 'expected_incorrect': 1500,
             'partial_failure_patterns': 600, 'boundary_exact_cases': 200, 'tap_events': 15000,
             'tap_percent_events': 3000, 'array_cases': 800, 'inf_cases': 40, 'rewrite_cases': 300,
-            'relative_operand_discriminating': 40, 'norm_discriminating': 24, 'default_comparer_scope_cases': 12}
+            'relative_operand_discriminating': 40, 'norm_discriminating': 24, 'default_comparer_scope_cases': 12, 'sibling_value_cases': 40}
 
 
 # ----------------------------------------------------------------------------- tap
@@ -475,7 +475,10 @@ def run_inf(ctx):
     table = [('infty', 'infty', True), ('infty', '-infty', False), ('-infty', '-infty', True), ('infty', '5', False),
              ('5', 'infty', False), ('-infty', 'infty', False), ('infty', '1e300', False), ('2*infty', 'infty', True),
              ('-infty', '5', False), ('-infty', '-5', False), ('-infty', '-1e300', False), ('5', '-infty', False), ('-5', '-infty', False),
-             ('infty', '-5', False), ('-infty', '0', False), ('0', 'infty', False), ('0', '-infty', False), ('-2*infty', '-infty', True)]
+             ('infty', '-5', False), ('-infty', '0', False), ('0', 'infty', False), ('0', '-infty', False), ('-2*infty', '-infty', True),
+             # submissions without a value (indeterminate forms, blank boxes) agree with nothing, under relative and absolute tolerances alike
+             ('5', 'infty-infty', False), ('5', '0*infty', False), ('0', 'infty-infty', False), ('infty', 'infty-infty', False), ('5', 'infty/infty', False),
+             ('5', '', False), ('0', '  ', False), ('0', '0*infty', False), ('-infty', 'infty-infty', False)]
     for ans, student, want in table:
         for cls in (FormulaGrader, NumericalGrader):
             for tol in (0, 5, '100%', '1000%'):
@@ -493,6 +496,37 @@ def run_inf(ctx):
                                   'expected ok=%s, got %r' % (want, out.value), wit)
                 TAP['events'] = []
                 ctx.nontrivial(wit)
+
+
+def run_sibling_values(ctx):
+    """An author's answer written in terms of sibling_j is compared with the value of the j-th INPUT BOX of the ordered list
+    (docs/grading_math/formula_grader.md), whatever kinds of boxes precede it."""
+    from mitxgraders import ListGrader, FormulaGrader, NumericalGrader, StringGrader, DependentSampler
+    F = lambda **k: FormulaGrader(variables=['x'], **k)
+    table = [
+        (['cat', 'x+1', 'sibling_2*2'], lambda: [StringGrader(), F(), F()], ['cat', 'x+1', '2*(x+1)'], [1, 1, 1]),
+        (['cat', 'x+1', 'sibling_2*2'], lambda: [StringGrader(), F(), F()], ['cat', 'x+1', '0'], [1, 1, 0]),
+        (['cat', 'x+1', 'sibling_2*2'], lambda: [StringGrader(), F(), F()], ['cat', 'x+1', 'x+1'], [1, 1, 0]),
+        (['cat', 'x+1', 'sibling_2*2'], lambda: [StringGrader(), F(), F()], ['cat', 'x', '2*x'], [1, 0, 1]),
+        (['cat', 'dog', '3', 'sibling_3+1'], lambda: [StringGrader(), StringGrader(), NumericalGrader(), NumericalGrader()], ['cat', 'dog', '3', '4'], [1, 1, 1, 1]),
+        (['cat', 'dog', '3', 'sibling_3+1'], lambda: [StringGrader(), StringGrader(), NumericalGrader(), NumericalGrader()], ['cat', 'dog', '5', '6'], [1, 1, 0, 1]),
+        (['cat', 'dog', '3', 'sibling_3+1'], lambda: [StringGrader(), StringGrader(), NumericalGrader(), NumericalGrader()], ['cat', 'dog', '3', '1'], [1, 1, 1, 0]),
+        (['x', 'cat', 'c'], lambda: [F(), StringGrader(), FormulaGrader(variables=['x', 'c'], sample_from={'c': DependentSampler(formula='sibling_1^2')}, instructor_vars=['c'])],
+         ['x+2', 'cat', '(x+2)^2'], [0, 1, 1]),
+    ]
+    for rep in range(ctx.pick(2, 8)):
+        for answers, mk, inputs, want in table:
+            g = ListGrader(answers=answers, subgraders=mk(), ordered=True)
+            out = lib.call(ctx, g, None, list(inputs))
+            ctx.ev()
+            ctx.count('grader_calls')
+            ctx.count('sibling_value_cases')
+            wit = {'answers': answers, 'inputs': inputs, 'expected_grades': want, 'outcome': out.brief()}
+            ctx.nontrivial(['sibling_values', answers, inputs])
+            if not out.returned:
+                ctx.violation('C04:sibling_values:raises', repr(out.exc)[:200], wit)
+            elif [e['grade_decimal'] for e in out.value['input_list']] != want:
+                ctx.violation('C04:sibling_values:verdict', 'grades %r, expected %r' % ([e['grade_decimal'] for e in out.value['input_list']], want), wit)
 
 
 def run_default_comparer_scope(ctx):
@@ -547,5 +581,6 @@ def run(ctx):
     run_identity_law(ctx)
     if ctx.shard % 4 == 0:
         run_default_comparer_scope(ctx)
+        run_sibling_values(ctx)
         run_boundaries(ctx)
         run_inf(ctx)
